@@ -98,6 +98,13 @@ def run_program(prog, chooser, lines=False, policy=()):
                 sched.emit("execute-returned", raised=ex)
 
         def make_cb(rid, ckind):
+            if ckind in ("flex-typeerror", "flex-ok"):
+                # accepts two or three positional arguments; may fail with a TypeError of its own
+                def cb(*args):
+                    sched.emit("cb-call", reg=rid, args=tuple(args) if len(args) == 3 else tuple(args) + (None,))
+                    if ckind == "flex-typeerror":
+                        raise TypeError("callback failed with a type error")
+                return cb
             if ckind == "arity":
                 def cb(only_one):
                     sched.emit("cb-call", reg=rid, args=None)
@@ -132,10 +139,16 @@ def run_program(prog, chooser, lines=False, policy=()):
                     else:
                         extra = ("extra", rid)
                         cb_obj = make_cb(rid, op[1])
+                    no_extra = op[1].startswith("flex")
+                    if no_extra:
+                        extra = None
                     state["objs"][rid] = extra
                     sched.emit("reg-begin", reg=rid, ckind=op[1])
                     try:
-                        fut.set_callback(cb_obj, extra)
+                        if no_extra:
+                            fut.set_callback(cb_obj)      # registration without the extra parameter
+                        else:
+                            fut.set_callback(cb_obj, extra)
                         sched.emit("reg-end", reg=rid, raised=None)
                     except Exception as ex:
                         sched.emit("reg-end", reg=rid, raised=ex)
@@ -357,6 +370,8 @@ MICRO = [
     {"task": "ret", "threads": [[("cb", "ok")], [("cb", "ok")]], "exec_first": True},
     {"task": "ret", "threads": [[("cb", "same"), ("result", None), ("cb", "same"), ("cb", "same")]], "exec_first": True},
     {"task": "raise", "threads": [[("cb", "same"), ("cb", "same")]], "exec_first": False},
+    {"task": "ret", "threads": [[("cb", "flex-typeerror"), ("result", None), ("cb", "flex-typeerror")]], "exec_first": True},
+    {"task": "raise", "threads": [[("cb", "flex-ok")], [("cb", "flex-typeerror")]], "exec_first": False},
 ]
 
 
@@ -408,7 +423,7 @@ def dfs_oracle(case):
 
 
 ops = st.one_of(
-    st.tuples(st.just("cb"), st.sampled_from(["ok", "ok", "raise", "arity", "same", "same"])),
+    st.tuples(st.just("cb"), st.sampled_from(["ok", "ok", "raise", "arity", "same", "same", "flex-typeerror", "flex-ok"])),
     st.just(("done",)),
     st.tuples(st.just("result"), st.sampled_from([None, 0.5, 2.0])),
 )
